@@ -105,6 +105,12 @@ class _SubContext:
     def floor(self, name, minimum):
         return self._ctx.floor("%s.%s" % (self._prefix, name), minimum)
 
+    @property
+    def counts(self):
+        """this sub-context's own counters, under their unprefixed names"""
+        pre = self._prefix + "."
+        return {k[len(pre):]: v for k, v in self._ctx.counts.items() if k.startswith(pre)}
+
     def sub(self, prefix):
         return _SubContext(self._ctx, self._prefix + "." + prefix)
 
